@@ -41,11 +41,11 @@ PLANS = {
                 quick=[("wsexh", 700, "k=3"), ("cycle", 6, "n=150"), ("wsrand", 150, ""), ("repoint", 60, ""), ("endwatch", 80, ""), ("tlcws", 600, "k=3"), ("tlcwslag", 334, "k=3"), ("tlcwslag", 300, "k=4"), ("recurse", 150, ""), ("tlcreclag", 400, "k=4"), ("ovfend", 1, "")],
                 thorough=[("wsexh", 2744, "k=3"), ("wsexh", 12000, "k=4"), ("cycle", 50, "n=1000"), ("wsrand", 5000, ""), ("repoint", 600, ""), ("endwatch", 2000, ""), ("recurse", 2000, ""), ("tlcreclag", 7000, "k=4"), ("tlcwslag", 12000, "k=4"), ("ovfend", 4, "")]),
     "C13": dict(engine=INO, mc=["MC_Sched"], also_lin=True,
-                quick=[("close", 200, ""), ("newclose", 3, "n=300"), ("lag", 60, ""), ("ovfstall", 1, "mode=close"), ("readfault", 40, "")],
-                thorough=[("close", 5000, ""), ("newclose", 10, "n=1000"), ("lag", 1500, ""), ("readfault", 600, ""), ("ovfstall", 6, "mode=close")]),
+                quick=[("close", 200, ""), ("newclose", 3, "n=300"), ("lag", 60, ""), ("ovfstall", 1, "mode=close"), ("readfault", 40, ""), ("closereuse", 6, "")],
+                thorough=[("close", 5000, ""), ("newclose", 10, "n=1000"), ("lag", 1500, ""), ("readfault", 600, ""), ("ovfstall", 6, "mode=close"), ("closereuse", 100, "")]),
     "C14": dict(engine=INO, mc=["MC_Events"],
-                quick=[("multi", 100, ""), ("multix", 60, ""), ("absorb", 40, ""), ("capsweep", 24, ""), ("ovflate", 2, "")],
-                thorough=[("multi", 2000, ""), ("multix", 1500, ""), ("absorb", 400, ""), ("capsweep", 400, ""), ("ovflate", 8, "")]),
+                quick=[("multi", 100, ""), ("multix", 60, ""), ("absorb", 40, ""), ("capsweep", 24, ""), ("ovflate", 2, ""), ("closereuse", 10, "")],
+                thorough=[("multi", 2000, ""), ("multix", 1500, ""), ("absorb", 400, ""), ("capsweep", 400, ""), ("ovflate", 8, ""), ("closereuse", 200, "")]),
 }
 
 PLANS["C19"] = dict(engine=INO, mc=["MC_Recurse"],
